@@ -23,34 +23,35 @@ abbrev runLog := Kevo.Proofs.Wal.runLog
 
 /-- (1) one entry, any size (single record or FIRST/MIDDLE*/LAST), followed by arbitrary further bytes, is read
     back exactly, consuming exactly its own bytes and leaving the reader with no pending fragments. -/
-theorem readEntry_encodeEntry (p : WalParams) (hp : p.WF) (crc : Bytes → Nat) (e : Entry) (he : EntryWF p e)
-    (rest : Bytes) (fuel : Nat) (hf : (encodeEntry p crc e).length < fuel) :
+theorem readEntry_encodeEntry (p : WalParams) (hp : p.WF) (crc : Bytes → Nat) (hcrc : ∀ bs, crc bs < 2 ^ 32)
+    (e : Entry) (he : EntryWF p e) (rest : Bytes) (fuel : Nat) (hf : (encodeEntry p crc e).length < fuel) :
     readEntry p crc fuel {} (encodeEntry p crc e ++ rest) = (.ok (norm p e), {}, rest) :=
-  Kevo.Proofs.Wal.readEntry_encodeEntry p hp crc e he rest fuel hf
+  Kevo.Proofs.Wal.readEntry_encodeEntry p hp crc hcrc e he rest fuel hf
 
 /-- (2) a file that is the concatenation of the encodings of any list of well-formed entries replays to exactly
     that list, in order, with nothing skipped and no error. -/
-theorem replay_file (p : WalParams) (hp : p.WF) (crc : Bytes → Nat) (es : List Entry) (hes : ∀ e ∈ es, EntryWF p e) :
+theorem replay_file (p : WalParams) (hp : p.WF) (crc : Bytes → Nat) (hcrc : ∀ bs, crc bs < 2 ^ 32)
+    (es : List Entry) (hes : ∀ e ∈ es, EntryWF p e) :
     let r := replayFile p crc (es.flatMap (encodeEntry p crc))
     r.entries = es.map (norm p) ∧ r.skipped = 0 ∧ r.outcome = .ok :=
-  Kevo.Proofs.Wal.replay_file p hp crc es hes
+  Kevo.Proofs.Wal.replay_file p hp crc hcrc es hes
 
 /-- (3) the property: for every program of appends, batches, rotations and reopenings, replaying the directory
     yields exactly the appended operations (types, keys, values, sequence numbers) in append order, and the
     counter continues where the abstract log says. -/
-theorem replay_program (p : WalParams) (hp : p.WF) (crc : Bytes → Nat) (ops : List LogOp)
-    (hops : ∀ o ∈ ops, OpWF p o) (hov : ops.length + 1 < p.maxSeq) :
+theorem replay_program (p : WalParams) (hp : p.WF) (crc : Bytes → Nat) (hcrc : ∀ bs, crc bs < 2 ^ 32)
+    (ops : List LogOp) (hops : ∀ o ∈ ops, OpWF p o) (hov : ops.length + 1 < p.maxSeq) :
     let l := runLog p crc ops
     let a := ALog.run ops
     (l.replay p crc).entries = a.entries.map (norm p) ∧ (l.replay p crc).isErr = false ∧ l.next = a.next :=
-  Kevo.Proofs.Wal.replay_program p hp crc ops hops hov
+  Kevo.Proofs.Wal.replay_program p hp crc hcrc ops hops hov
 
 /-- (4) reading from a sequence number yields exactly the stored operations at or after it, in order. -/
-theorem entriesFrom_spec (p : WalParams) (hp : p.WF) (crc : Bytes → Nat) (ops : List LogOp)
-    (hops : ∀ o ∈ ops, OpWF p o) (hov : ops.length + 1 < p.maxSeq) (s : Nat) :
+theorem entriesFrom_spec (p : WalParams) (hp : p.WF) (crc : Bytes → Nat) (hcrc : ∀ bs, crc bs < 2 ^ 32)
+    (ops : List LogOp) (hops : ∀ o ∈ ops, OpWF p o) (hov : ops.length + 1 < p.maxSeq) (s : Nat) :
     (runLog p crc ops).entriesFrom p crc s =
       some (((ALog.run ops).entries.map (norm p)).filter (fun e => e.seq ≥ s)) :=
-  Kevo.Proofs.Wal.entriesFrom_spec p hp crc ops hops hov s
+  Kevo.Proofs.Wal.entriesFrom_spec p hp crc hcrc ops hops hov s
 
 /-- (5) sequence numbers in the replayed log are non-decreasing and equal only inside one batch: consecutive
     appended operations get consecutive numbers. -/
@@ -65,6 +66,14 @@ theorem batch_too_large (p : WalParams) (crc : Bytes → Nat) (l : Log) (es : Li
     (h : ∃ t ∈ es, payloadSize p { op := t.1, seq := 0, key := t.2.1, val := t.2.2 } > p.maxRecord) :
     (l.batch p crc es).1 = .error .tooLarge ∧ (l.batch p crc es).2.next = l.next :=
   Kevo.Proofs.Wal.batch_too_large p crc l es hne hseq h
+
+/-- The checksum hypothesis is necessary: the record stores only the low 32 bits of `crc data` while the reader
+    compares the full value, so for a checksum function exceeding 2^32 a freshly written record reads back as
+    corrupt (hash/crc32 returns a uint32, so the implementation satisfies `hcrc`). -/
+theorem crc_range_needed :
+    ∃ (p : WalParams) (crc : Bytes → Nat) (e : Entry), p.WF ∧ EntryWF p e ∧
+      (readEntry p crc 100 {} (encodeEntry p crc e ++ [])).1 = .error .corrupt :=
+  ⟨_, _, _, Kevo.Proofs.Wal.cexParams_wf, Kevo.Proofs.Wal.cexEntry_wf, Kevo.Proofs.Wal.crc_counterexample⟩
 
 /-- the generated constants satisfy the shape the proofs need. -/
 theorem consts_wf : Kevo.Gen.walParams.WF := Kevo.Gen.walParams_wf
